@@ -526,6 +526,119 @@ func ResolveActual(root *ssa.Function, v ssa.Value) ssa.Value {
 	return v
 }
 
+// Deref expands a value to the values that define it across the boundaries of the private helpers a query on root
+// enters: a helper's parameter stands for the arguments at its call sites, a call to a helper with one result for
+// what the helper returns, a phi for its edges. Values that cannot be expanded are returned as they are.
+func Deref(root *ssa.Function, v ssa.Value) []ssa.Value {
+	var out []ssa.Value
+	for _, vc := range DerefCtx(root, v, nil) {
+		out = append(out, vc.V)
+	}
+	return out
+}
+
+// ValCtx is a value together with the chain of helper calls through which it was reached: a parameter of the
+// innermost helper stands for the argument of that very call, not of every call of the helper.
+type ValCtx struct {
+	V   ssa.Value
+	Ctx []*ssa.Call
+}
+
+// DerefCtx is Deref with calling context (see ValCtx); ctx is the context v itself was found in.
+func DerefCtx(root *ssa.Function, v ssa.Value, ctx []*ssa.Call) []ValCtx {
+	entered := map[*ssa.Function]bool{}
+	for _, g := range InlineReach(root) {
+		entered[g] = g != root
+	}
+	var out []ValCtx
+	type key struct {
+		v   ssa.Value
+		top *ssa.Call
+		n   int
+	}
+	seen := map[key]bool{}
+	var walk func(v ssa.Value, ctx []*ssa.Call, d int)
+	walk = func(v ssa.Value, ctx []*ssa.Call, d int) {
+		if v == nil {
+			return
+		}
+		k := key{v: v, n: len(ctx)}
+		if len(ctx) > 0 {
+			k.top = ctx[len(ctx)-1]
+		}
+		if seen[k] {
+			return
+		}
+		seen[k] = true
+		if d > 10 {
+			out = append(out, ValCtx{v, ctx})
+			return
+		}
+		switch x := v.(type) {
+		case *ssa.Parameter:
+			if entered[x.Parent()] {
+				idx := -1
+				for i, fp := range x.Parent().Params {
+					if fp == x {
+						idx = i
+					}
+				}
+				if idx >= 0 && len(ctx) > 0 && ctx[len(ctx)-1].Call.StaticCallee() == x.Parent() {
+					s := ctx[len(ctx)-1]
+					if idx < len(s.Call.Args) {
+						walk(s.Call.Args[idx], ctx[:len(ctx)-1], d+1)
+						return
+					}
+				}
+				sites := SitesOf(root, x.Parent())
+				if idx >= 0 && len(sites) > 0 {
+					for _, s := range sites {
+						if idx < len(s.Call.Args) {
+							walk(s.Call.Args[idx], nil, d+1)
+						}
+					}
+					return
+				}
+			}
+		case *ssa.Call:
+			if callee := x.Call.StaticCallee(); callee != nil && entered[callee] && callee.Signature.Results().Len() == 1 {
+				rets := Returns(callee)
+				if len(rets) > 0 {
+					inner := append(append([]*ssa.Call{}, ctx...), x)
+					for _, r := range rets {
+						walk(r.Results[0], inner, d+1)
+					}
+					return
+				}
+			}
+		case *ssa.Extract:
+			// one result of a helper that returns several
+			if c, isCall := x.Tuple.(*ssa.Call); isCall {
+				if callee := c.Call.StaticCallee(); callee != nil && entered[callee] {
+					rets := Returns(callee)
+					if len(rets) > 0 {
+						inner := append(append([]*ssa.Call{}, ctx...), c)
+						for _, r := range rets {
+							if x.Index < len(r.Results) {
+								walk(r.Results[x.Index], inner, d+1)
+							}
+						}
+						return
+					}
+				}
+			}
+		case *ssa.Phi:
+			for _, e := range x.Edges {
+				walk(e, ctx, d+1)
+			}
+			return
+		}
+		out = append(out, ValCtx{v, ctx})
+	}
+	walk(v, ctx, 0)
+	return out
+}
+
 // InlineReach lists fn and the functions a query rooted at fn may enter: same-package static callees and the
 // closures they create, to the inlining depth.
 func InlineReach(fn *ssa.Function) []*ssa.Function {
